@@ -45,6 +45,16 @@ fn self_cpu_ticks() -> u64 {
     f.get(11).and_then(|x| x.parse::<u64>().ok()).unwrap_or(0) + f.get(12).and_then(|x| x.parse::<u64>().ok()).unwrap_or(0)
 }
 
+/// CPU ticks (1/100 s, all threads of the process) a search may burn without entering any node
+pub const BUSY_TICKS: u64 = 2_000;
+/// resident memory no search of this workload comes near (the engine's own memory is 1 GiB)
+pub const RSS_BOUND: u64 = 6 << 30;
+
+fn self_rss_bytes() -> u64 {
+    let Ok(s) = std::fs::read_to_string("/proc/self/statm") else { return 0 };
+    s.split_whitespace().nth(1).and_then(|x| x.parse::<u64>().ok()).unwrap_or(0) * 4096
+}
+
 fn stall_s(ctx: &Ctx) -> f64 {
     if ctx.mode == "miri" {
         900.0
@@ -223,6 +233,7 @@ pub fn run_case(case: &Case, ev: &Evaluator, ctx: &Ctx, rep: &mut Report) -> Ver
     let mut last_nodes = 0u64;
     let mut last_change = Instant::now();
     let mut last_cpu = self_cpu_ticks();
+    let mut cpu_at_last_node = self_cpu_ticks();
     let mut stop_sent_at: Option<Instant> = None;
     loop {
         // repeated Stops: the remaining instants
@@ -273,6 +284,18 @@ pub fn run_case(case: &Case, ev: &Evaluator, ctx: &Ctx, rep: &mut Report) -> Ver
         if n != last_nodes {
             last_nodes = n;
             last_change = Instant::now();
+            cpu_at_last_node = self_cpu_ticks();
+        }
+        // busy but not searching: CPU time (not wall time) spent without entering a single node, or memory growing
+        // without bound, after Stop was sent or under a depth limit - e.g. a line walk that never ends
+        if ctx.mode != "miri" && (case.depth.is_some() || stops_sent.load(SeqCst) > 0) {
+            let busy_ticks = if ctx.mode == "tsan" { BUSY_TICKS * 5 } else { BUSY_TICKS };
+            let burnt = self_cpu_ticks().saturating_sub(cpu_at_last_node);
+            let rss = self_rss_bytes();
+            if burnt > busy_ticks || (rss > RSS_BOUND && ctx.mode != "tsan") {
+                rep.violation("stop-ignored", &case.signature("busy-without-nodes"), &format!("the search used {} CPU ticks without entering a node (bound {}), resident memory {} MiB (bound {} MiB), and has not returned (nodes {}, cancel seen {})", burnt, busy_ticks, rss >> 20, RSS_BOUND >> 20, n, srch::CANCEL_SEEN.load(Relaxed)), replay);
+                return Verdict::Fatal;
+            }
         }
         // "stuck" means blocked: no node *and* (almost) no CPU used by this process over the window
         let cpu = self_cpu_ticks();
